@@ -228,6 +228,15 @@ def fixed_inputs():
                 if n >= 200 and (head or tail) and unit not in ('1', '0', '_', ':1'):
                     continue
                 out.append((head + unit * n + tail, 'long_run'))
+    # long runs of each unusual (but accepted) character, in a line and at the start of many lines: flat input, so neither
+    # a RecursionError nor super-linear work is acceptable
+    for ch in (S.BOM, S.NEL, S.LS, S.PS, S.NBSP, '\t', '\r', chr(0x1F600), chr(0xe9), '#', '!', '&a ', '*a ', '- ', '? ', ': ', ', ', '[] ', '{} ', "'' ", '"" ', '| ', '%'):
+        for n in (1200, 3000):
+            out.append((ch * n, 'long_run_odd'))
+            out.append(('a\n' + ch * n + '\nb\n', 'long_run_odd'))
+            out.append(((ch + '\n') * n, 'long_run_odd'))
+            out.append(('- x\n' + (ch + ' # c\n') * n + '- y\n', 'long_run_odd'))
+            out.append(('k: "' + (ch + '\n') * n + '"\n', 'long_run_odd'))
     out.append(('"\\U00110000"', 'escape_num'))
     out.append(('"\\UFFFFFFFF"', 'escape_num'))
     out.append(("'\\U00110000'", 'escape_num'))
